@@ -7,8 +7,10 @@ return (also when it raises).  TLC evaluates no floats: the recorder projects ev
 the tracked state WHICH of them the call owed (e.g. the first noise on a frame without estimate owes `is_param`, any
 later one owes `is_reest`).  Also installed under the repository's own tests (harness/verif_frame_recorder.py)."""
 import contextlib
+import hashlib
 import inspect
 import math
+import os
 
 import numpy as np
 from astropy.stats import sigma_clip
@@ -25,8 +27,24 @@ def _close(a, b, rel=REL):
     return a == b or abs(a - b) <= rel * max(abs(a), abs(b))
 
 
+def _dig(a):
+    a = np.ascontiguousarray(a)
+    return hashlib.sha1(a.tobytes()).hexdigest()[:16] + ":" + "x".join(str(n) for n in a.shape) + ":" + a.dtype.str
+
+
+def _sig(fr, fmt):
+    """What a reader of a file written from `fr` must reconstruct, as exactly comparable items."""
+    return {"fmt": fmt, "T": int(fr.tchans), "F": int(fr.fchans), "asc": bool(fr.ascending), "src": str(fr.source_name),
+            "d32": _dig(np.asarray(fr.data).astype(np.float32))}
+
+
+NOSIG = {"fmt": "?", "T": 0, "F": 0, "asc": False, "src": "?", "d32": "?"}
+
+
 class Recorder(object):
     def __init__(self):
+        self.paths = {}         # real path -> key
+        self.snap = {}          # key -> (generation, format, axes snapshot, data copy, estimate, metadata)
         self.events = []
         self.objs = []
         self.oid = {}
@@ -64,8 +82,15 @@ class Recorder(object):
     def axes_same(a, b):
         return bool(np.array_equal(a[0], b[0]) and np.array_equal(a[1], b[1]) and a[2:] == b[2:])
 
-    def trace(self):
-        return {"h": {"nf": max(1, len(self.objs))}, "ev": self.events}
+    def pkey(self, filename):
+        k = os.path.realpath(str(filename))
+        if k not in self.paths:
+            self.paths[k] = len(self.paths) + 1
+        return self.paths[k]
+
+    def trace(self, strict=False):
+        """strict: every write to a frame's pixels went through a recorded call (true of the drivers, not of arbitrary tests)"""
+        return {"h": {"nf": max(1, len(self.objs)), "np": max(1, len(self.paths)), "strict": bool(strict)}, "ev": self.events}
 
 
 def _args(orig, a, kw):
@@ -90,6 +115,37 @@ def _delta_ok(before, after, ret):
     if np.array_equal(after, want) or np.array_equal(after, want.astype(after.dtype)):
         return True
     return False
+
+
+def copy_event(rec, parent, call, how):
+    """One Copy event: `call()` returns what claims to be an equal, independent frame (Frame.copy, copy.deepcopy, a pickle
+    round trip).  Also called directly by drivers for the routes that are not Frame methods."""
+    p = rec.fid(parent)
+    pa, pdata, pest = rec.axes(parent), np.array(parent.data, copy=True), rec.est(parent)
+    pmeta = dict(parent.metadata) if isinstance(getattr(parent, "metadata", None), dict) else None
+    rec.depth += 1
+    try:
+        ret, exc = call(), None
+    except Exception as e:
+        ret, exc = None, e
+    finally:
+        rec.depth -= 1
+    ev = {"e": "Copy", "src": how, "parent": p, "st": "ok" if exc is None else type(exc).__name__, "before": pest, "dig0": _dig(pdata),
+          "parent_same": bool(rec.axes_same(pa, rec.axes(parent)) and np.array_equal(pdata, parent.data) and pest == rec.est(parent)),
+          "child": 0, "child_est": {"zero": False, "m": "?", "s": "?"}, "child_dig": "?", "own_data": True,
+          "eq": {"data": True, "axes": True, "est": True, "meta": True}}
+    if exc is None and isinstance(ret, _frame.Frame):
+        ev["child"] = rec.fid(ret)
+        ev["child_est"], ev["child_dig"] = rec.est(ret), _dig(ret.data)
+        ev["own_data"] = bool(ret is not parent and not np.shares_memory(ret.data, parent.data) and not np.shares_memory(ret.fs, parent.fs)
+                              and not np.shares_memory(ret.ts, parent.ts) and (pmeta is None or ret.metadata is not parent.metadata))
+        ev["eq"] = {"data": bool(np.array_equal(ret.data, pdata) and ret.data.dtype == pdata.dtype),
+                    "axes": rec.axes_same(pa, rec.axes(ret)), "est": bool(rec.est(ret) == pest),
+                    "meta": bool(pmeta is None or ret.metadata == pmeta)}
+    rec.events.append(ev)
+    if exc is not None:
+        raise exc
+    return ret
 
 
 @contextlib.contextmanager
@@ -119,14 +175,57 @@ def recording(rec):
             ret, exc = outer(lambda: orig(self, *a, **kw))
             if exc is not None:
                 raise exc
-            how = "waterfall" if (a and a[0] is not None) or kw.get("waterfall") is not None else ("data" if kw.get("data") is not None else "sizes")
+            w = a[0] if a else kw.get("waterfall")
+            how = "waterfall" if w is not None else ("data" if kw.get("data") is not None else "sizes")
+            load = None
+            if isinstance(w, (str, os.PathLike)) and kw.get("f_start") is None and kw.get("f_stop") is None:
+                how = "file"
+                load = load_fields(self, str(w))
             k = self.chi2_df
             x = self.df * self.dt
             k_ok = k in (4 * math.floor(x + 0.5), 4 * math.ceil(x - 0.5)) or k == 4 * round(x)
-            rec.events.append({"e": "Create", "fid": rec.fid(self), "how": how, "after": rec.est(self),
-                               "data_zero": bool(not np.any(self.data)), "k_ok": bool(k_ok),
+            ev = {"e": "Create", "fid": rec.fid(self), "how": how, "after": rec.est(self), "dig1": _dig(self.data),
+                  "path": 1, "gen": 0, "sig": NOSIG, "axes_close": True, "tstart_close": True, "helpers_ok": True, "exact_ok": True}
+            if load is not None:
+                ev.update(load)
+            rec.events.append(ev)
+            ev.update({"data_zero": bool(not np.any(self.data)), "k_ok": bool(k_ok),
                                "axes_ok": bool(len(self.fs) == self.fchans and len(self.ts) == self.tchans and tuple(self.data.shape) == (self.tchans, self.fchans))})
         return __init__
+
+    def load_fields(fr, filename):
+        """A frame constructed from a whole file: its exactly comparable signature, the float items compared (to the
+        tolerances stated here) with the recorder's snapshot of the frame last saved to that path, and the standalone
+        file helpers compared with the loaded frame."""
+        from setigen import waterfall_utils as wu
+        k = rec.pkey(filename)
+        gen, fmt, ax, data, est, meta = rec.snap.get(k, (0, "?", None, None, None, None))
+        out = {"path": k, "gen": gen, "sig": _sig(fr, fmt if fmt in ("fil", "h5") else "?")}
+        if ax is not None and fmt in ("fil", "h5"):
+            fs0, ts0, shape0, df0, dt0, fch10, asc0, t0, src0 = ax
+            tolf = 1e-6 * abs(df0) + 4 * np.spacing(max(abs(fch10), 1.0))
+            out["axes_close"] = bool(len(fr.fs) == len(fs0) and len(fr.ts) == len(ts0)
+                                     and np.allclose(fr.fs, fs0, rtol=0, atol=tolf) and np.allclose(fr.ts, ts0, rtol=0, atol=1e-9 * dt0 * max(1, len(ts0)))
+                                     and _close(fr.df, df0, 1e-9) and _close(fr.dt, dt0, 1e-9) and abs(fr.fch1 - fch10) <= tolf)
+            out["tstart_close"] = bool(abs(fr.t_start - t0) <= 1e-4)
+        try:
+            rec.depth += 1
+            try:
+                hfs, hts, hdat = np.asarray(wu.get_fs(filename)) * 1e6, wu.get_ts(filename), wu.get_data(filename)      # header units are MHz
+                lo, hi = wu.min_freq(filename) * 1e6, wu.max_freq(filename) * 1e6
+            finally:
+                rec.depth -= 1
+            tolf = 1e-6 * fr.df + 4 * np.spacing(max(abs(fr.fch1), 1.0))
+            # the helpers report the file's own order (fch1 first); the frame holds ascending-index order
+            ffs = fr.fs if fr.ascending else fr.fs[::-1]
+            out["helpers_ok"] = bool(len(hfs) == fr.fchans and len(hts) == fr.tchans and tuple(np.shape(hdat)) == (fr.tchans, fr.fchans)
+                                     and np.allclose(np.sort(hfs), np.sort(ffs), rtol=0, atol=tolf)
+                                     and np.allclose(hts, fr.ts, rtol=0, atol=1e-9 * fr.dt * max(1, fr.tchans))
+                                     and abs(lo - float(np.min(fr.fs))) <= tolf and abs(hi - float(np.max(fr.fs))) <= tolf)
+        except Exception as e:       # a helper that cannot read a file the constructor read
+            out["helpers_ok"] = False
+            out["helpers_err"] = "%s: %s" % (type(e).__name__, e)
+        return out
 
     def noise_event(self, name, kind, params, call):
         f = rec.fid(self)
@@ -135,6 +234,7 @@ def recording(rec):
         ret, exc = outer(call)
         after = np.asarray(self.data)
         ev = {"e": "Noise", "src": name, "fid": f, "kind": kind, "before": before_est, "after": rec.est(self),
+              "dig0": _dig(before), "dig1": _dig(after),
               "st": "ok" if exc is None else type(exc).__name__,
               "axes_same": rec.axes_same(before_axes, rec.axes(self)),
               "data_same": bool(after.shape == before.shape and np.array_equal(after, before))}
@@ -197,8 +297,9 @@ def recording(rec):
         def zero_data(self, *a, **kw):
             if rec.depth > 0:
                 return orig(self, *a, **kw)
+            d0 = _dig(self.data)
             ret, exc = outer(lambda: orig(self, *a, **kw))
-            rec.events.append({"e": "ZeroData", "fid": rec.fid(self), "after": rec.est(self), "data_zero": bool(not np.any(self.data)),
+            rec.events.append({"e": "ZeroData", "fid": rec.fid(self), "after": rec.est(self), "dig0": d0, "dig1": _dig(self.data), "data_zero": bool(not np.any(self.data)),
                                "shape_ok": bool(tuple(self.data.shape) == tuple(self.shape)), "st": "ok" if exc is None else type(exc).__name__})
             if exc is not None:
                 raise exc
@@ -217,6 +318,7 @@ def recording(rec):
                 ret, exc = outer(lambda: orig(self, *a, **kw))
                 after = np.asarray(self.data)
                 ev = {"e": "Signal", "src": name, "fid": f, "before": before_est, "after": rec.est(self),
+                      "dig0": _dig(before), "dig1": _dig(after),
                       "st": "ok" if exc is None else type(exc).__name__,
                       "axes_same": rec.axes_same(before_axes, rec.axes(self)),
                       "meta_same": bool(meta is None or meta == self.metadata),
@@ -240,6 +342,7 @@ def recording(rec):
                     return orig(self, *a, **kw)
                 x = [v for k, v in g.items() if k != "self"][0]
                 before = rec.est(self)
+                d0 = _dig(self.data)
                 std, T = float(self.noise_std), int(self.tchans)
                 # estimates of float32 data are float32 numbers: the relation holds to that precision
                 rel = 1e-10 if not isinstance(self.noise_std, np.floating) or np.finfo(type(self.noise_std)).bits >= 64 else 8 * float(np.finfo(type(self.noise_std)).eps)
@@ -255,6 +358,7 @@ def recording(rec):
                     except Exception:
                         ok = True            # array-valued or unit-carrying argument: not projected
                 rec.events.append({"e": "Snr", "src": name, "fid": rec.fid(self), "before": before, "after": rec.est(self),
+                                   "dig0": d0, "dig1": _dig(self.data),
                                    "std_zero": bool(std == 0), "st": "ok" if exc is None else type(exc).__name__, "value_ok": bool(ok)})
                 if exc is not None:
                     raise exc
@@ -269,6 +373,7 @@ def recording(rec):
         pest = rec.est(parent)
         ret, exc = outer(call)
         ev = {"e": "Derive", "src": name, "parent": p, "st": "ok" if exc is None else type(exc).__name__,
+              "dig0": _dig(pdata), "child_dig": "?", "before": pest,
               "parent_same": bool(rec.axes_same(pa, rec.axes(parent)) and np.array_equal(pdata, parent.data) and pest == rec.est(parent)),
               "child": 0, "keeps": {"asc": True, "df": True, "dt": True, "t_start": True, "source": True, "rows": True}, "own_data": True,
               "child_est": {"zero": False, "m": "?", "s": "?"}}
@@ -281,6 +386,7 @@ def recording(rec):
                            "rows": bool(ret.tchans == (1 if axis == "t" else parent.tchans))}
             ev["own_data"] = bool(not np.shares_memory(ret.data, parent.data))
             ev["child_est"] = rec.est(ret)
+            ev["child_dig"] = _dig(ret.data)
         rec.events.append(ev)
         if exc is not None:
             raise exc
@@ -311,6 +417,56 @@ def recording(rec):
             return derive_event("integrate", g["fr"], lambda: orig(*a, **kw), axis=ax)
         return integrate
 
+    def mk_save(fmt):
+        def make(orig):
+            def save(self, filename, *a, **kw):
+                if rec.depth > 0:
+                    return orig(self, filename, *a, **kw)
+                f = rec.fid(self)
+                est0, ax0, d0 = rec.est(self), rec.axes(self), _dig(self.data)
+                meta = dict(self.metadata) if isinstance(getattr(self, "metadata", None), dict) else None
+                ret, exc = outer(lambda: orig(self, filename, *a, **kw))
+                k = rec.pkey(filename if fmt != "npy" or str(filename).endswith(".npy") else str(filename) + ".npy")
+                gen = rec.snap.get(k, (0,))[0] + 1
+                ok = exc is None
+                rec.snap[k] = (gen, fmt if ok else "?", rec.axes(self), np.array(self.data, copy=True), rec.est(self), meta)
+                rec.events.append({"e": "Save", "src": "save_" + fmt, "fid": f, "fmt": fmt, "path": k, "gen": gen,
+                                   "st": "ok" if ok else type(exc).__name__, "before": est0, "after": rec.est(self),
+                                   "dig0": d0, "dig1": _dig(self.data), "axes_same": rec.axes_same(ax0, rec.axes(self)),
+                                   "meta_same": bool(meta is None or meta == self.metadata),
+                                   "sig": _sig(self, fmt) if ok and fmt in ("fil", "h5", "pickle") else NOSIG})
+                if exc is not None:
+                    raise exc
+                return ret
+            return save
+        return make
+
+    def mk_load_pickle(orig):
+        def load_pickle(cls, filename):
+            if rec.depth > 0:
+                return orig.__func__(cls, filename)
+            ret, exc = outer(lambda: orig.__func__(cls, filename))
+            if exc is not None:
+                raise exc
+            k = rec.pkey(filename)
+            gen, fmt, ax, data, est, meta = rec.snap.get(k, (0, "?", None, None, None, None))
+            ev = {"e": "Create", "fid": rec.fid(ret), "how": "pickle", "after": rec.est(ret), "dig1": _dig(ret.data), "path": k, "gen": gen,
+                  "sig": _sig(ret, fmt if fmt == "pickle" else "?"), "axes_close": True, "tstart_close": True, "helpers_ok": True,
+                  "exact_ok": True, "data_zero": bool(not np.any(ret.data)), "k_ok": True, "axes_ok": True}
+            if fmt == "pickle":
+                ev["exact_ok"] = bool(rec.axes_same(ax, rec.axes(ret)) and np.array_equal(data, ret.data) and data.dtype == ret.data.dtype
+                                      and est == rec.est(ret) and (meta is None or meta == ret.metadata))
+            rec.events.append(ev)
+            return ret
+        return classmethod(load_pickle)
+
+    def mk_copy(orig):
+        def copy(self):
+            if rec.depth > 0:
+                return orig(self)
+            return copy_event(rec, self, lambda: orig(self), "copy")
+        return copy
+
     import sys
     # the package re-exports the functions under the names of their modules: go through sys.modules
     m_slice, m_dedrift, m_int = sys.modules["setigen.slice"], sys.modules["setigen.dedrift"], sys.modules["setigen.integrate"]
@@ -321,6 +477,12 @@ def recording(rec):
         patch(F, "zero_data", mk_zero)
         patch(F, "add_signal", mk_signal("add_signal"))
         patch(F, "add_constant_signal", mk_signal("add_constant_signal"))
+        patch(F, "save_fil", mk_save("fil"))
+        patch(F, "save_hdf5", mk_save("h5"))
+        patch(F, "save_pickle", mk_save("pickle"))
+        patch(F, "save_npy", mk_save("npy"))
+        patch(F, "load_pickle", mk_load_pickle)
+        patch(F, "copy", mk_copy)
         patch(F, "get_intensity", mk_snr("get_intensity"))
         patch(F, "get_snr", mk_snr("get_snr"))
         patch(m_slice, "get_slice", mk_slice)
